@@ -184,3 +184,138 @@ Proof.
   intros x Hx. unfold deleted. rewrite Ea, Hd. apply count_in_nodup; [|exact Hx].
   apply Hn. eapply nth_error_In; eauto.
 Qed.
+
+(* ================================================================== without Stop nothing can panic *)
+Definition is_stop_ev (e : env) : bool := match e with EStop | ECancel => true | _ => false end.
+Definition no_stop (ev : list env) : Prop := forallb (fun e => negb (is_stop_ev e)) ev = true.
+
+Record NS (s : state) : Prop := {
+  ns_panic : s_panic s = None;
+  ns_ctx : n_ctx (s_node s) = mkchan 0;
+  ns_pcd : cclosed (n_pcd (s_node s)) = false;
+  ns_thr : n_thr (s_node s) = thr0 TRunning FNode;
+  ns_stop : n_stop (s_node s) = thr0 TNotStarted FStop;
+  ns_main : n_main (s_node s) = false;
+  ns_env : no_stop (s_env s) }.
+
+Lemma no_stop_remove ev k : no_stop ev -> no_stop (remove_nth ev k).
+Proof.
+  unfold no_stop. revert k. induction ev as [|e ev IH]; intros [|k] H; cbn in *; auto.
+  - apply andb_true_iff in H. tauto.
+  - apply andb_true_iff in H. destruct H as [H1 H2]. rewrite H1. cbn. apply IH. exact H2.
+Qed.
+Lemma no_stop_nth ev k e : no_stop ev -> nth_error ev k = Some e -> is_stop_ev e = false.
+Proof.
+  unfold no_stop. intros H Hn. apply nth_error_In in Hn. rewrite forallb_forall in H.
+  apply H in Hn. apply negb_true_iff in Hn. exact Hn.
+Qed.
+
+Lemma apply_env_node s e : is_stop_ev e = false -> s_node (apply_env s e) = s_node s
+  /\ s_panic (apply_env s e) = s_panic s /\ s_env (apply_env s e) = s_env s.
+Proof.
+  destruct e as [i d|i|i| |]; cbn; try discriminate; intros _;
+    destruct (nth_error (s_asc s) i); cbn; auto.
+Qed.
+
+Lemma ns_init cfg ev : no_stop ev -> NS (init cfg ev).
+Proof. intros H. constructor; cbn; auto. Qed.
+
+Lemma ns_step cfg s l s' : GInv cfg s -> NS s -> step s l = Some s' -> NS s'.
+Proof.
+  intros Hg [Hp Hc Hd Ht Hs Hm He] H. unfold step in H. unfold dead in H. rewrite Hp, Hm in H.
+  destruct l as [k|alt| |i r alt].
+  - destruct (nth_error (s_env s) k) as [e|] eqn:Ek; [|discriminate]. injection H as <-.
+    destruct (apply_env_node s e (no_stop_nth _ _ _ He Ek)) as (Hn & _ & _).
+    constructor; cbn; rewrite ?Hn; auto. apply no_stop_remove. exact He.
+  - destruct (Nat.leb 3 alt); [discriminate|].
+    destruct (s_node s) as [cx pc dn ls mp ex bu mn th sp] eqn:End. cbn in *. subst cx th sp mn.
+    unfold thread_step in H. cbn in H.
+    destruct alt as [|[|[|alt]]]; cbn in H; try discriminate.
+    unfold ch_recv in H. destruct (cbuf pc) as [|v rest] eqn:Eb.
+    + rewrite Hd in H. discriminate.
+    + cbn in H. injection H as <-. constructor; cbn; auto.
+  - rewrite Hs in H. cbn in H. discriminate.
+  - destruct (negb (is_assoc_role r) || Nat.leb 3 alt) eqn:Eg; [discriminate|].
+    apply orb_false_elim in Eg. destruct Eg as [Er _]. apply negb_false_iff in Er.
+    destruct (nth_error (s_asc s) i) as [a|] eqn:Ea; [|discriminate].
+    destruct (Forall2_nth _ _ _ _ _ Hg Ea) as (se & Hse & Ha).
+    pose proof (step_assoc se (N.of_nat i) r alt (s_node s) a _ Er Ha eq_refl) as Hstep.
+    destruct (thread_step (N.of_nat i) r alt (s_node s) a (get_thr a r)) as [[[nd' a'] t']| |site];
+      try discriminate; injection H as <-.
+    + destruct Hstep as [_ (F1 & F2 & F3 & F4 & F5 & F6 & F7 & F8 & F9)].
+      constructor; cbn; try congruence. rewrite F1; [exact Hc|]. rewrite Hc. reflexivity.
+    + congruence.
+Qed.
+
+Theorem no_panic_without_stop cfg ev sch : no_stop ev -> s_panic (run (init cfg ev) sch) = None.
+Proof.
+  intros Hns.
+  assert (H : GInv cfg (run (init cfg ev) sch) /\ NS (run (init cfg ev) sch)).
+  { unfold run. apply (run_inv state tid step (fun s => GInv cfg s /\ NS s)).
+    - intros s l s' [Hg Hn] Hs. split; [eapply ginv_step; eauto | eapply ns_step; eauto].
+    - split; [apply ginv_init | apply ns_init; exact Hns]. }
+  destruct H as [_ [Hp _ _ _ _ _ _]]. exact Hp.
+Qed.
+
+(* with or without Stop: the only panic the system can ever raise comes from a send on the closed pConnDone
+   by a connection, or from the node closing a channel twice - which never happens (see node_no_double_close) *)
+
+(* ================================================================== isolation *)
+Definition env_target (e : env) : option nat :=
+  match e with EDeliver i _ | ETimeout i | EHbFail i => Some i | _ => None end.
+Definition untouched (ev : list env) (j : nat) : Prop := forall e, In e ev -> env_target e <> Some j.
+
+(* an established association nobody talks to: each of its threads waits *)
+Lemma idle_blocked c me r alt nd :
+  c_first c = None -> n_ctx nd = mkchan 0 -> is_assoc_role r = true ->
+  thread_step me r alt nd (init_assoc c) (get_thr (init_assoc c) r) = Blocked.
+Proof.
+  destruct c as [sess hb [d|]]; cbn; [discriminate|]. intros _ Hc Hr.
+  destruct nd as [cx pc dn ls mp ex bu mn th sp]. cbn in Hc. subst cx.
+  destruct r; try discriminate Hr; destruct hb; destruct alt as [|[|[|[|alt]]]]; reflexivity.
+Qed.
+
+Lemma in_remove_nth {A} (l : list A) k x : In x (remove_nth l k) -> In x l.
+Proof.
+  revert k. induction l as [|y l IH]; intros [|k]; cbn; auto. intros [->|H]; auto. right. eapply IH. exact H.
+Qed.
+
+Lemma apply_env_other s e j : env_target e <> Some j ->
+  nth_error (s_asc (apply_env s e)) j = nth_error (s_asc s) j.
+Proof.
+  destruct e as [i d|i|i| |]; cbn; intros H; try reflexivity;
+    (destruct (nth_error (s_asc s) i); cbn; [apply nth_error_upd_other; congruence | reflexivity]).
+Qed.
+
+Theorem isolated cfg ev j c sch :
+  no_stop ev -> untouched ev j -> nth_error cfg j = Some c -> c_first c = None ->
+  nth_error (s_asc (run (init cfg ev) sch)) j = Some (init_assoc c).
+Proof.
+  intros Hns Hu Hc Hf.
+  set (P := fun s => (GInv cfg s /\ NS s) /\ nth_error (s_asc s) j = Some (init_assoc c) /\ untouched (s_env s) j).
+  assert (H : P (run (init cfg ev) sch)).
+  { unfold run. apply (run_inv state tid step P).
+    - intros s l s' [[Hg Hn] [Hj Hun]] Hs. split; [split; [eapply ginv_step; eauto | eapply ns_step; eauto]|].
+      pose proof Hn as [Hp Hcx _ _ Hst Hm _].
+      unfold step in Hs. unfold dead in Hs. rewrite Hp, Hm in Hs.
+      destruct l as [k|alt| |i r alt].
+      + destruct (nth_error (s_env s) k) as [e|] eqn:Ek; [|discriminate]. injection Hs as <-. cbn. split.
+        * rewrite apply_env_other; [exact Hj|]. apply Hun. eapply nth_error_In; eauto.
+        * intros e' He'. apply Hun. eapply in_remove_nth; eauto.
+      + destruct (Nat.leb 3 alt); [discriminate|].
+        destruct (thread_step 0 RNode alt (s_node s) assoc0 (n_thr (s_node s))) as [[[nd' a'] t']| |site];
+          try discriminate; injection Hs as <-; cbn; auto.
+      + destruct (thread_step 0 RStop 0 (s_node s) assoc0 (n_stop (s_node s))) as [[[nd' a'] t']| |site];
+          try discriminate; injection Hs as <-; cbn; auto.
+      + destruct (negb (is_assoc_role r) || Nat.leb 3 alt) eqn:Eg; [discriminate|].
+        apply orb_false_elim in Eg. destruct Eg as [Er _]. apply negb_false_iff in Er.
+        destruct (nth_error (s_asc s) i) as [a|] eqn:Ea; [|discriminate].
+        destruct (Nat.eq_dec i j) as [->|Hne].
+        * rewrite Hj in Ea. injection Ea as <-. rewrite idle_blocked in Hs by assumption. discriminate.
+        * destruct (thread_step (N.of_nat i) r alt (s_node s) a (get_thr a r)) as [[[nd' a'] t']| |site];
+            try discriminate; injection Hs as <-; cbn; [|auto].
+          split; [|exact Hun]. rewrite nth_error_upd_other by exact Hne. exact Hj.
+    - split; [split; [apply ginv_init | apply ns_init; exact Hns]|]. split; [|exact Hu].
+      unfold init, init_cap. cbn. rewrite nth_error_map, Hc. reflexivity. }
+  destruct H as [_ [H _]]. exact H.
+Qed.
